@@ -76,15 +76,15 @@ MISSING = -2000000000      # a region attribute that is absent from a payload
 
 def region_from_dict(data):
     """Region of a notification / GET payload (an absent attribute becomes MISSING)."""
-    from harness.rig import nat
+    from harness.rig import nat, pid
 
     def field(key):
         value = nat(data.get(key))
         return MISSING if value is None else value
     if data.get("type") == "CircularRegion":
-        return {"t": "circ", "id": str(data.get("id")), "a": field("cx"), "b": field("cy"),
+        return {"t": "circ", "id": pid(data.get("id")), "a": field("cx"), "b": field("cy"),
                 "c": field("r"), "d": 0}
-    return {"t": "rect", "id": str(data.get("id")), "a": field("x1"), "b": field("y1"),
+    return {"t": "rect", "id": pid(data.get("id")), "a": field("x1"), "b": field("y1"),
             "c": field("x2"), "d": field("y2")}
 
 
@@ -156,7 +156,11 @@ def run_plugin_history(hist, trace_id, keep_state=True):
                    "extendedExcludeGcodes": "xg",
                    "atCommandActions": "at",
                    "g90InfluencesExtruder": "g90e"}[step[1]]
-            store[key] = step[3] if key in ("enter", "exit", "xg", "at") else step[2]
+            if key in ("clearAfter", "mayShrink"):
+                # step[3]: what the stored value means (it may be stored as text)
+                store[key] = step[2] if (len(step) < 4 or step[3] is None) else step[3]
+            else:
+                store[key] = step[3] if key in ("enter", "exit", "xg", "at") else step[2]
             cf, cfx = _store_records(store, store.get("g90e", hist.g90e))
             event = {"ev": "set", "store": cf, "storex": cfx}
         elif kind == "pev":
@@ -213,6 +217,7 @@ def run_plugin_history(hist, trace_id, keep_state=True):
             event.update({"res": res, "out": [alpha_cmd(x) for x in out]})
         elif kind == "api":
             command, data, anon = step[1], step[2], step[3]
+            from harness.rig import pid
             typ = {"RectangularRegion": "rect", "CircularRegion": "circ"}.get(data.get("type"),
                                                                               "bad")
             cmd = {"addExcludeRegion": "add", "updateExcludeRegion": "update",
@@ -224,7 +229,7 @@ def run_plugin_history(hist, trace_id, keep_state=True):
                 raw = [nat(data["cx"]), nat(data["cy"]), nat(data["r"]), 0]
             event = {"ev": "api", "cmd": cmd, "anon": bool(anon),
                      "typ": typ if cmd != "delete" else "none",
-                     "id": str(data.get("id")) if data.get("id") is not None else "",
+                     "id": pid(data.get("id")) if data.get("id") is not None else "",
                      "hasId": data.get("id") is not None,
                      "a": raw[0], "b": raw[1], "c": raw[2], "d": raw[3]}
             try:
